@@ -62,6 +62,7 @@ class P:
     def __init__(self, toks):
         self.toks = toks
         self.i = 0
+        self.func_errors = []   # in reduction (post-)order; raised only if the syntax is fine
 
     def peek(self, k=0):
         j = self.i + k
@@ -86,6 +87,8 @@ class P:
         t = self.expr(0)
         if self.peek() != "$end":
             raise RefReject("trailing input at %d" % self.i)
+        if self.func_errors:
+            raise self.func_errors[0]
         return t
 
     def expr(self, minp):
@@ -185,7 +188,7 @@ class P:
     def mkcall(self, ident, args):
         err = check_call(ident, args)
         if err:
-            raise err
+            self.func_errors.append(err)
         return ("Call", ident, ("[]",) + tuple(args))
 
     def path(self, ident):
